@@ -53,6 +53,9 @@ func init() {
 		return one(sc)
 	}
 	generators["C13"] = func(seed uint64, tier string) []*Scenario {
+		if seed%5 == 4 {
+			return one(genC13W2(seed)) // every request shape against the real decoder, over a fragmenting connection
+		}
 		p := profile{maxFiles: 6, maxFaults: 2, orders: true, renames: true, fineNet: true, dirs: true,
 			faultKinds: []string{"cut_req_at", "cut_after_recorded", "drop_resp"}}
 		if seed%3 == 1 {
